@@ -1,0 +1,5 @@
+//go:build !verif
+
+package table
+
+func verifGate(string) {}
